@@ -301,3 +301,46 @@ Definition insert_units (ct : char_type) (s : list N) : list N :=
   | CtWchar | CtChar32 => decode_utf8_lax s
   | CtChar16 => flat_map utf16_unit_lax (decode_utf8_lax s)
   end.
+
+(* ---- stream extraction: is >> s ----
+     std::basic_string<char_T> stl_string;  stream >> stl_string;
+     str.set(stl_string.c_str(), stl_string.size());          (default validation)
+   The tokenisation is libstdc++'s (an oracle; the harness prints the token it took): in the
+   "C" locale it skips and stops at ' ' \t \n \v \f \r for char and wchar_t; char16_t / char32_t
+   streams have no ctype facet, the sentry fails and the token is empty. *)
+Fixpoint skip_ws (l : list N) : list N :=
+  match l with
+  | c :: t => if isspace c then skip_ws t else l
+  | [] => []
+  end.
+Fixpoint take_token (l : list N) : list N :=
+  match l with
+  | c :: t => if isspace c then [] else c :: take_token t
+  | [] => []
+  end.
+Definition extract_token (ct : char_type) (l : list N) : list N :=
+  match ct with
+  | CtChar | CtWchar => take_token (skip_ws l)
+  | CtChar16 | CtChar32 => []
+  end.
+
+(* utf32_to_utf8 / wchar_to_utf8 (32-bit wchar_t) with check_validity *)
+Fixpoint utf32_to_utf8_check (l : list N) : outcome (list N) :=
+  match l with
+  | [] => Ok []
+  | u :: t =>
+      if u <=? 0x10FFFF then
+        match utf32_to_utf8_check t with
+        | Ok r => Ok (write_utf8 u ++ r)
+        | e => e
+        end
+      else Throw UnicodeError
+  end.
+
+(* str.set(token): what the ST::string holds afterwards *)
+Definition set_from_token (ct : char_type) (tok : list N) : outcome (list N) :=
+  match ct with
+  | CtChar => from_utf8 CheckValidity tok
+  | CtWchar | CtChar32 => utf32_to_utf8_check tok
+  | CtChar16 => Ok []          (* only ever called with the empty token, see extract_token *)
+  end.
